@@ -58,6 +58,8 @@ def gen_prob(rnd):
     r = rnd.random()
     if r < 0.12:
         return rnd.choice([0.0, 1.0])
+    if r < 0.16:
+        return rnd.choice([1e-9, 1e-4, 1 - 1e-9, 1 - 1e-4, 0.999, 0.001])
     if r < 0.3:
         return rnd.choice([0.5, 0.25, 0.1, 0.9, 1 / 3, 0.2, 0.7])
     return round(rnd.uniform(0, 1), rnd.choice([2, 3, 6]))
